@@ -46,6 +46,7 @@ type PullClient struct {
 
 	// 添加到流媒体中心后设置
 	stream *media.Stream
+	opened *media.Stream // the stream handed to the creator; playStream never clears it
 
 	// 打开连接后设置
 	conn     *buffered.Conn
@@ -300,6 +301,7 @@ func (c *PullClient) requestPlay() (err error) {
 	c.stream = media.NewStream(c.path, c.rawSdp,
 		media.Attr("addr", c.url.String()),
 		media.Multicast(mproxy))
+	c.opened = c.stream
 	go c.playStream()
 
 	return nil
